@@ -201,7 +201,24 @@ func checkStep(o *tableObs, accept []*equiv, fine func(key string) string) (v ve
 		v.hits = append(v.hits, "table-clear-nonempty")
 	}
 	// ---- op result (remhash: t iff an equivalent key was present)
-	if parts[0] == "rem" {
+	postWhy, postKind := "", ""
+	{
+		ok := false
+		for i, e := range accept {
+			why, kind := postStateProblem(e, o, parts, fine)
+			if why == "" {
+				ok = true
+				break
+			}
+			if i == 0 {
+				postWhy, postKind = why, kind
+			}
+		}
+		if ok {
+			postWhy, postKind = "", ""
+		}
+	}
+	if parts[0] == "rem" && postWhy == "" { // a wrong post-state is reported below; one event, one signature
 		ok := false
 		var want string
 		for i, e := range accept {
@@ -209,6 +226,9 @@ func checkStep(o *tableObs, accept []*equiv, fine func(key string) string) (v ve
 			w := "nil"
 			if 0 < len(pm[e.cls(key)]) {
 				w = "t"
+			}
+			if 1 < len(pm[e.cls(key)]) {
+				ok = true // S3: the class already holds two equivalent keys (reported where it arose)
 			}
 			if i == 0 {
 				want = w
@@ -220,22 +240,8 @@ func checkStep(o *tableObs, accept []*equiv, fine func(key string) string) (v ve
 		}
 	}
 	// ---- post-state = transformation of the observed pre-state
-	{
-		ok := false
-		var primWhy, primKind string
-		for i, e := range accept {
-			why, kind := postStateProblem(e, o, parts, fine)
-			if why == "" {
-				ok = true
-				break
-			}
-			if i == 0 {
-				primWhy, primKind = why, kind
-			}
-		}
-		if !ok {
-			v.fail(sigHead+" kind="+primKind, fmt.Sprintf("%s leaves %s; %s", where, entriesString(o.post), primWhy))
-		}
+	if postWhy != "" {
+		v.fail(sigHead+" kind="+postKind, fmt.Sprintf("%s leaves %s; %s", where, entriesString(o.post), postWhy))
 	}
 	// ---- lookups on the post-state: value last stored under an equivalent key
 	for _, q := range o.probeKey {
@@ -256,8 +262,9 @@ func checkStep(o *tableObs, accept []*equiv, fine func(key string) string) (v ve
 			case len(es) == 0 && pr.found:
 				why, kind = "no equivalent key is stored; expected nil, nil", "found-without-equivalent-key"
 			case 0 < len(es) && !pr.found:
+				es = preferSameType(es, fine(q), fine)
 				why = fmt.Sprintf("the equivalent key %s [%s] is stored (%s says so); expected its value %s, t", keySrc(es[0].key), fine(es[0].key), e.name, es[0].val)
-				kind = "equivalent-key-not-found stored=" + fine(es[0].key)
+				kind = "equivalent-key-not-found stored=" + storedClass(fine(q), fine(es[0].key))
 			case 0 < len(es):
 				match := false
 				for _, en := range es {
@@ -310,37 +317,45 @@ func checkStep(o *tableObs, accept []*equiv, fine func(key string) string) (v ve
 
 // postStateProblem: "" when the post-state is the right transformation of the pre-state under e.
 func postStateProblem(e *equiv, o *tableObs, parts []string, fine func(string) string) (why, kind string) {
-	pre, preOK := e.norm(o.pre)
-	post, postOK := e.norm(o.post)
-	if !preOK {
-		return "", "" // the pre-state is already incoherent under e (reported at the step that made it so): nothing is demanded
-	}
+	pre, _ := e.norm(o.pre)
+	post, _ := e.norm(o.post)
+	// S3: a class that already holds two equivalent keys in the observed pre-state (reported at the step that
+	// made it so) is left alone; everything else is demanded.
+	skip := map[int]bool{}
 	want := map[int]string{}
 	for c, es := range pre {
-		want[c] = es[0].val
+		if 1 < len(es) {
+			skip[c] = true
+		} else {
+			want[c] = es[0].val
+		}
 	}
 	kind = "wrong-post-state"
 	switch parts[0] {
 	case "set":
 		c := e.cls(parts[1])
-		val := parts[2]
-		if es := pre[c]; 0 < len(es) && 1 < len(post[c]) {
-			kind = "store-duplicates-equivalent-key stored=" + fine(es[0].key)
+		if es := preferSameType(pre[c], fine(parts[1]), fine); 0 < len(es) && 1 < len(post[c]) {
+			kind = "store-duplicates-equivalent-key stored=" + storedClass(fine(parts[1]), fine(es[0].key))
 		}
-		want[c] = val
+		if !skip[c] {
+			want[c] = parts[2]
+		}
 	case "rem":
 		c := e.cls(parts[1])
-		if es := pre[c]; 0 < len(es) && 0 < len(post[c]) {
-			kind = "equivalent-key-not-removed stored=" + fine(es[0].key)
+		if es := preferSameType(pre[c], fine(parts[1]), fine); 0 < len(es) && 0 < len(post[c]) {
+			kind = "equivalent-key-not-removed stored=" + storedClass(fine(parts[1]), fine(es[0].key))
 		}
 		delete(want, c)
 	case "clr":
 		want = map[int]string{}
+		skip = map[int]bool{}
 		kind = "not-empty-after-clrhash"
 	}
 	var diffs []string
-	if !postOK {
-		diffs = append(diffs, "two keys that are equivalent ("+e.name+") are both stored, so the count is not the number of distinct keys")
+	for c, es := range post {
+		if 1 < len(es) && !skip[c] {
+			diffs = append(diffs, fmt.Sprintf("the keys %s and %s, which are equivalent (%s), are both stored, so the count is not the number of distinct keys", es[0].key, es[1].key, e.name))
+		}
 	}
 	for c, w := range want {
 		es := post[c]
@@ -352,7 +367,7 @@ func postStateProblem(e *equiv, o *tableObs, parts []string, fine func(string) s
 		}
 	}
 	for c, es := range post {
-		if _, has := want[c]; !has {
+		if _, has := want[c]; !has && !skip[c] {
 			diffs = append(diffs, fmt.Sprintf("unexpected entry %s=>%s", es[0].key, es[0].val))
 		}
 	}
@@ -361,6 +376,27 @@ func postStateProblem(e *equiv, o *tableObs, parts []string, fine func(string) s
 	}
 	sort.Strings(diffs)
 	return strings.Join(diffs, "; "), kind
+}
+
+// storedClass relates the representation of the stored equivalent key to that of the key used: one
+// signature per defect class (same representation, different object / another numeric representation).
+func storedClass(keyFine, storedFine string) string {
+	switch {
+	case keyFine == storedFine:
+		return "same-type"
+	case isNumberKind(kindOf(keyFine)) && isNumberKind(kindOf(storedFine)):
+		return "other-number-type"
+	}
+	return storedFine
+}
+
+func preferSameType(es []entry, keyFine string, fine func(string) string) []entry {
+	for i, e := range es {
+		if fine(e.key) == keyFine {
+			return append([]entry{e}, append(append([]entry(nil), es[:i]...), es[i+1:]...)...)
+		}
+	}
+	return es
 }
 
 func keySrc(k string) string {
@@ -454,6 +490,16 @@ func keySetup() {
 	})
 }
 
+// keyVar: slip variable names are case-insensitive, element names are not.
+func keyVar(name string) string {
+	for i, n := range allTableKeys() {
+		if n == name {
+			return fmt.Sprintf("k%d_", i)
+		}
+	}
+	return "k_unknown_"
+}
+
 func goSame(a, b slip.Object) (same bool) {
 	defer func() {
 		if recover() != nil {
@@ -484,7 +530,7 @@ func newRealTable(test string) (*realTable, *lisp.Err) {
 	keySetup()
 	t := &realTable{scope: slip.NewScope()}
 	for n, o := range keyObjs {
-		t.scope.Let(slip.Symbol("k_"+n), o)
+		t.scope.Let(slip.Symbol(keyVar(n)), o)
 	}
 	h, err := lisp.EvalIn(t.scope, "(make-hash-table :test '"+test+")")
 	if err != nil {
@@ -503,9 +549,9 @@ func (t *realTable) apply(op string) (string, tri) {
 		if parts[2] == "nil" {
 			v = "nil"
 		}
-		src = "(setf (gethash k_" + parts[1] + " h_) " + v + ")"
+		src = "(setf (gethash " + keyVar(parts[1]) + " h_) " + v + ")"
 	case "rem":
-		src = "(remhash k_" + parts[1] + " h_)"
+		src = "(remhash " + keyVar(parts[1]) + " h_)"
 	case "clr":
 		src = "(progn (clrhash h_) nil)"
 	}
@@ -527,7 +573,7 @@ func (t *realTable) entries() []entry {
 }
 
 func (t *realTable) probe(k string) probeRes {
-	val, err := lisp.EvalIn(t.scope, "(gethash k_"+k+" h_)")
+	val, err := lisp.EvalIn(t.scope, "(gethash "+keyVar(k)+" h_)")
 	if err != nil {
 		return probeRes{bad: errTri(err)}
 	}
